@@ -57,7 +57,9 @@ def holds(cond, observed):
     if 'len' in cond:
         return isinstance(x, list) and len(x) == cond['len']
     if 'names_ne' in cond:      # witness form: the list of names DIFFERS from the expected one
-        return not (isinstance(x, list) and sorted(e.get('name') if isinstance(e, dict) else e for e in x) == sorted(cond['names_ne']))
+        return not (isinstance(x, list) and sorted(e.get('name', e.get('fixture')) if isinstance(e, dict) else e for e in x) == sorted(cond['names_ne']))
+    if 'len_ne' in cond:        # witness form: not a list of exactly this length
+        return not (isinstance(x, list) and len(x) == cond['len_ne'])
     if 'seq_ne' in cond:        # witness form: the value (order included) differs from the expected one
         return x != cond['seq_ne']
     if 'differs_from' in cond:  # witness form: two observations that the property says agree, differ
